@@ -40,13 +40,14 @@ fn main() {
     let mut out = std::io::BufWriter::new(out.lock());
     match args[1].as_str() {
         "gen" => {
-            let mut seed = 1u64; let mut scripts = 10usize;
+            let mut seed = 1u64; let mut scripts = 10usize; let mut first = 0usize;
             let mut prof = genr::Profile { len: 200, multi_arena: false, faults: false, default_pacing: false, max_cb: 10, burst: false };
             let mut i = 2;
             while i < args.len() {
                 match args[i].as_str() {
                     "--seed" => { seed = args[i + 1].parse().unwrap(); i += 1; }
                     "--scripts" => { scripts = args[i + 1].parse().unwrap(); i += 1; }
+                    "--first" => { first = args[i + 1].parse().unwrap(); i += 1; }
                     "--len" => { prof.len = args[i + 1].parse().unwrap(); i += 1; }
                     "--max-cb" => { prof.max_cb = args[i + 1].parse().unwrap(); i += 1; }
                     "--multi" => prof.multi_arena = true,
@@ -57,16 +58,20 @@ fn main() {
                 }
                 i += 1;
             }
-            for s in 0..scripts {
+            drop(out);
+            let emit = |s: String| { let so = std::io::stdout(); let mut l = so.lock(); writeln!(l, "{s}").unwrap(); l.flush().unwrap(); };
+            for s in first..scripts {
                 let sd = seed.wrapping_mul(1_000_003).wrapping_add(s as u64);
                 let mut g = genr::Gen::new(sd, prof);
                 let mut w = world::World::new();
+                w.stream = true;
+                emit(format!("#script gen-{seed}-{s}"));
                 w.run(&mut g);
-                writeln!(out, "#script gen-{seed}-{s}").unwrap();
-                for l in &w.lines { writeln!(out, "{l}").unwrap(); }
-                for a in &w.alarms { writeln!(out, "#alarm {a}").unwrap(); }
+                for a in &w.alarms { emit(format!("#alarm {a}")); }
+                emit(format!("#done gen-{seed}-{s}"));
             }
-            for c in genr::cells_report() { writeln!(out, "#cell {c}").unwrap(); }
+            for c in genr::cells_report() { emit(format!("#cell {c}")); }
+            return;
         }
         "run" => {
             let stdin = std::io::stdin();
@@ -76,10 +81,13 @@ fn main() {
                 if ops.is_empty() { return; }
                 let mut src = world::ScriptSource { ops: std::mem::take(ops), pos: 0 };
                 let mut w = world::World::new();
-                w.run(&mut src);
+                w.stream = true;
                 writeln!(out, "#script {name}").unwrap();
-                for l in &w.lines { writeln!(out, "{l}").unwrap(); }
+                out.flush().unwrap();
+                w.run(&mut src);
                 for a in &w.alarms { writeln!(out, "#alarm {a}").unwrap(); }
+                writeln!(out, "#done {name}").unwrap();
+                out.flush().unwrap();
             };
             for line in stdin.lock().lines() {
                 let line = line.unwrap();
